@@ -35,6 +35,14 @@ ALLOWED_AXIOMS = {
     "sig_forall_dec", "sig_not_dec", "functional_extensionality_dep", "classic",
 }
 
+# primitive machine integers / floats of the standard library (used by CoqInterval): listed by Print Assumptions, not ours
+PRIMITIVE_PREFIXES = ("FloatAxioms.", "PrimFloat.", "PrimInt63.", "Uint63.", "Uint63Axioms.", "Sint63.", "Sint63Axioms.", "FloatOps.", "SpecFloat.")
+
+
+def axiom_allowed(a):
+    return a in ALLOWED_AXIOMS or a.split(".")[-1] in ALLOWED_AXIOMS or a.startswith(PRIMITIVE_PREFIXES)
+
+
 FORBIDDEN = re.compile(r"\b(Admitted|admit|Axiom|Axioms|Parameter|Parameters|Conjecture|Conjectures|"
                        r"Admit Obligations|bypass_check)\b|Unset Guard|Unset Positivity|Unset Universe|"
                        r"type-in-type|impredicative-set|native_compute")
@@ -257,6 +265,8 @@ class Check:
     # -- violations
     def violation(self, key, what, replay, found_input=True):
         """key: stable identifier of the failing input / call site (matched with known findings)"""
+        if any(v["key"] == key for v in self.violations):
+            return
         os.makedirs(os.path.join(VERIF, "replays"), exist_ok=True)
         h = hashlib.sha1((self.pid + key).encode()).hexdigest()[:10]
         path = os.path.join(VERIF, "replays", "%s_%s.json" % (self.pid, h))
@@ -326,8 +336,10 @@ def check_props_file(chk, pid, extra_targets=()):
         allax = set()
         for closed, names in ass:
             allax |= names
-        chk.assumptions = sorted(allax) if allax else ["Closed under the global context"]
-        bad = [a for a in allax if a not in ALLOWED_AXIOMS and a.split(".")[-1] not in ALLOWED_AXIOMS]
+        prim = sorted({a.split(".")[0] for a in allax if a.startswith(PRIMITIVE_PREFIXES)})
+        rest = sorted(a for a in allax if not a.startswith(PRIMITIVE_PREFIXES))
+        chk.assumptions = (rest + (["standard-library primitives (machine ints / floats): " + ", ".join(prim)] if prim else [])) if allax else ["Closed under the global context"]
+        bad = [a for a in allax if not axiom_allowed(a)]
         chk.oblige("%s: Print Assumptions lists only standard-library axioms" % pid, not bad, str(bad))
         chk.extra["print_assumptions_blocks"] = len(ass)
     else:
